@@ -383,7 +383,7 @@ def fam_joints(R, n, op):
                     if n >= 2:
                         c.assume(M[0, 0].e != 1)     # the identity shortcut (and its 64 forks) is covered by n = 1
                     q = transform(p, M)
-                if n <= 2 or op.startswith('scaled'):
+                if op.startswith('scaled') or n == 1:
                     return segs, (list(q), q.start, q.end)
                 return segs, (list(q), None, None)
 
